@@ -118,7 +118,7 @@ def gen_harness(spec, mod):
     return "\n".join(L)
 
 
-def std_assumption_harnesses():
+def std_assumption_harnesses(tier="quick"):
     """the one std contract the range-mode `len()` relies on (DESIGN §4 C06 (c)): for a RangeInclusive of
     every integer type, mapped, after up to two leading next/next_back calls, `size_hint()` is exactly
     the number of remaining items — checked on the real core types for all start <= end with at most
@@ -138,6 +138,59 @@ def std_assumption_harnesses():
         L.append("        assert!(sh.0 as u64 == rem);")
         L.append("        assert!(sh.1 == Some(rem as usize));")
         L.append("    }")
+    if tier == "quick":
+        L.append("}")
+        return "\n".join(L)
+    # (thorough tier only: these do not depend on /repo and take minutes)
+    # the textbook double-ended / exact-size contracts assumed for the std iterators in `inner`
+    # (contracts/shims.rs.tmpl), checked on the real core types for small sources: every slice of
+    # length <= 4 (symbolic contents), every u8/i8 inclusive range of at most 6 items, every array of length 3; any 3-step
+    # history of next / next_back / nth(m) / nth_back(m) with len and size_hint after every step, then last()
+    HIST = """
+        let (mut lo, mut hi) = (0usize, n);
+        let mut k = 0;
+        while k < 3 {
+            k += 1;
+            assert!(it.len() == hi - lo);
+            assert!(it.size_hint() == (hi - lo, Some(hi - lo)));
+            let m: usize = kani::any();
+            kani::assume(m <= 5);
+            match kani::any::<u8>() % 4 {
+                0 => match it.next() { Some(v) => { assert!(lo < hi); assert!(v == at(lo)); lo += 1; } None => assert!(lo == hi) },
+                1 => match it.next_back() { Some(v) => { assert!(lo < hi); assert!(v == at(hi - 1)); hi -= 1; } None => assert!(lo == hi) },
+                2 => { let r = it.nth(m); if m < hi - lo { assert!(r == Some(at(lo + m))); lo += m + 1; } else { assert!(r.is_none()); lo = hi; } }
+                _ => { let r = it.nth_back(m); if m < hi - lo { assert!(r == Some(at(hi - 1 - m))); hi -= m + 1; } else { assert!(r.is_none()); hi = lo; } }
+            }
+        }
+        let l = it.last();
+        if lo < hi { assert!(l == Some(at(hi - 1))); } else { assert!(l.is_none()); }
+"""
+    L.append("    #[kani::proof] #[kani::unwind(8)]")
+    L.append("    fn contract_copied_slice_iter() {")
+    L.append("        let arr: [u8; 4] = kani::any(); let n: usize = kani::any(); kani::assume(n <= 4);")
+    L.append("        let s: &[u8] = &arr[..n];")
+    L.append("        let mut it = s.iter().copied();")
+    L.append("        let at = |i: usize| arr[i];")
+    L.append(HIST)
+    L.append("    }")
+    for r in ("u8", "i8"):
+        L.append("    #[kani::proof] #[kani::unwind(10)]")
+        L.append("    fn contract_map_range_inclusive_%s() {" % r)
+        L.append("        let a: %s = kani::any(); let b: %s = kani::any();" % (r, r))
+        L.append("        let n: usize = if a <= b { (b as i32 - a as i32) as usize + 1 } else { 0 };")
+        L.append("        kani::assume(n <= 6);   // `last()` folds over the remaining items: bounded to ranges of at most 6 items")
+        L.append("        let f: fn(%s) -> i32 = |x| x as i32 * 3;" % r)
+        L.append("        let mut it = (a..=b).map(f);")
+        L.append("        let at = |i: usize| (a as i32 + i as i32) * 3;")
+        L.append(HIST.replace("assert!(it.len() == hi - lo);", ""))
+        L.append("    }")
+    L.append("    #[kani::proof] #[kani::unwind(8)]")
+    L.append("    fn contract_array_into_iter() {")
+    L.append("        let arr: [u8; 3] = kani::any(); let n: usize = 3;")
+    L.append("        let mut it = arr.into_iter();")
+    L.append("        let at = |i: usize| arr[i];")
+    L.append(HIST)
+    L.append("    }")
     L.append("}")
     return "\n".join(L)
 
@@ -153,7 +206,7 @@ def run_layer_k(scratch, tier="quick", jobs=8):
     for s in live:
         t = s.render().rstrip()[:-1]
         parts.append(t + gen_harness(s, mods[s.mod]) + "\n}\n")
-    parts.append(std_assumption_harnesses())
+    parts.append(std_assumption_harnesses(tier))
     parts.append("fn main() {}\n")
     expand.write_crate(d, "kcrate", "\n".join(parts))
     os.makedirs(os.path.join(d, ".cargo"), exist_ok=True)
